@@ -87,6 +87,7 @@ public:
     // ---- trace hash (rolling) + optional text trace
     uint64_t trace_hash = 0x1234;
     bool keep_trace = false;
+    bool live_trace = false;
     std::vector<std::string> trace;
     void tr(const char* kind, uint64_t a = 0, uint64_t b = 0, uint64_t c = 0);
     void trs(const char* kind, const std::string& s, uint64_t a = 0);
